@@ -22,7 +22,7 @@ ASSUMPTIONS = [
 ]
 COMPONENTS = {"real": ["TradingEnv.step (delay deque)", "Transmitter", "PortfolioSpace.null_action/make_rebalancing_request", "Broker.rebalance", "Exchange"],
               "harness": ["delivery model", "plain-list delay queue model"], "stub": []}
-PROBE_FLOORS = {"delay_ge_2": 300, "discrete_with_delay": 100, "quote_exactly_on_latency_bound": 100,
+PROBE_FLOORS = {"second_episode_on_same_env": 300, "delay_ge_2": 300, "discrete_with_delay": 100, "quote_exactly_on_latency_bound": 100,
                 "quote_1us_after_latency_bound": 50, "episode_shorter_than_delay": 20, "trade_priced": 2000}
 
 PROFILE = {
@@ -47,6 +47,10 @@ def generate(rng, i):
     script = gen_epi.full_episode_script(rng, env, fold=fold, unique=True)
     if rng.random() < 0.15 and len(script) > 2:
         script = script[:rng.randint(2, len(script))]       # episode ends early (abandoned)
+    if rng.random() < 0.35:
+        # repeated episodes on one environment: timing must be the same in every one of them
+        for _ in range(rng.randint(1, 2)):
+            script = script + gen_epi.full_episode_script(rng, env, fold=fold, unique=True)
     return {"kind": "epi", "envs": [env], "clock0": "1999-01-01T00:00:00", "script": script, "prng": rng.randrange(2 ** 31)}
 
 
@@ -57,7 +61,9 @@ def execute(scenario):
     violations, probes, violate, probe = epicheck.mk_violation_sink()
     h = sim.handles[0]
     delay = env_spec.get("delay", 0)
-    for ep in h.episodes:
+    for ei, ep in enumerate(h.episodes):
+        if ei > 0:
+            probe("second_episode_on_same_env")
         if ep["failed"]:
             violate("unexpected_exception", "reset raised {}: {}".format(ep["reset"]["exc"], ep["reset"].get("msg")), exc=ep["reset"]["exc"], where="reset")
             break
